@@ -20,6 +20,7 @@ mon = sys.monitoring
 TOOL = 4
 
 CALLS = []  # records of finished/aborted calls, drained by the harness
+KNOWN_MODEL = [None]  # harness may set a model (dict var->bool) known to satisfy the next formula
 _cur = []  # stack of live call records
 _attached = False
 _codes = {}
@@ -77,6 +78,8 @@ def _on_start(code, off):
             outer = f.f_back.f_locals if f.f_back is not None else {}
             sols = outer.get("all_solutions")
             nv = outer.get("n_vars")
+            if len(outer.get("learned") or ()) >= 2000:
+                _l2(rec, "reduce_db-above-threshold")
             if sols is not None and nv:
                 rec["pre"][id(f)] = [frozenset((-v if s[v] else v) for v in range(1, nv + 1) if v in s) for s in sols]
     except Exception as e:  # monitor must never disturb the solver
@@ -110,6 +113,15 @@ def _on_return(code, off, retval):
             if not isinstance(retval, tuple) or retval[0] is None:
                 return
             learned = list(retval[0])
+            km = KNOWN_MODEL[0]
+            if km is not None:
+                # every model of the input satisfies every sound lemma (valid at any size; only meaningful while
+                # no blocking clause has been added, i.e. before the first model is recorded)
+                outer0 = f.f_back.f_locals if f.f_back is not None else {}
+                if not outer0.get("all_solutions"):
+                    _l2(rec, "learned-vs-known-model")
+                    if not any(km.get(abs(l)) == (l > 0) for l in learned):
+                        _l2(rec, "learned-falsified-by-known-model", f"learned={learned[:12]}... ({len(learned)} lits)")
             ms = _modelset(rec)
             if not ms:
                 return
@@ -303,6 +315,14 @@ def judge_c02(rec, obs, known=None, prefix=""):
             obs.violate("sat.model-for-unsat", f"{st} with solution {res.solution} on an unsatisfiable instance")
         if st in ("OPTIMAL", "FEASIBLE") and sat and res.solution is None:
             obs.violate("sat.optimal-without-model", "status says solved but no model returned")
+    if st in ("OPTIMAL", "FEASIBLE") and isinstance(res.solution, dict) and not any(len(c) == 0 for c in clauses):
+        # "answers with a model": what is handed back under OPTIMAL must be one (certificate, any size)
+        obs.event(prefix + "c02.claimed-model-checked")
+        bad = osat.satisfies(clauses, res.solution)
+        if bad is not None:
+            obs.violate("sat.claimed-model-is-not-a-model", f"{st} with an assignment that leaves clause {clauses[bad[0]]} {bad[1]}; kw={rec['kw']}")
+        elif any(res.solution.get(abs(l)) != (l > 0) for l in assumptions):
+            obs.violate("sat.claimed-model-contradicts-assumption", f"{res.solution} vs {assumptions}")
     if st not in ("OPTIMAL", "FEASIBLE", "INFEASIBLE", "MAX_ITER"):
         obs.violate("sat.unexpected-status", st)
     c = rec.get("counters")
